@@ -14,7 +14,7 @@ from . import tlc
 
 VERIF = tlc.VERIF
 EVID = os.environ.get("VERIF_EVIDENCE_DIR") or os.path.join(VERIF, "evidence")  # override: development runs against mutants
-REPLAYS = os.path.join(VERIF, "build", "replays")
+REPLAYS = os.path.join(tlc.BUILD, "replays")
 KNOWN = os.path.join(VERIF, "KNOWN_FINDINGS.json")
 
 
